@@ -5,6 +5,7 @@ predicates (`valueOK`, `declaredTag`, `sameValue`, `activePresent`, `trialKnown`
 `extOK`, `allIntegral`) are in `Model/PresentSpec.lean`, written from the property text.
 -/
 import VizierModel.Lemmas.PresentLoop
+import VizierModel.Lemmas.PresentTwin
 import VizierModel.Lemmas.PresentGroup
 
 namespace VizierModel.C17
@@ -224,6 +225,96 @@ theorem c17_inactive_is_error_partial (cfg : Cfg) (ss : List PC) (t : Assign) (H
     (hk : (keys t).Nodup) (h : trialKnown ss t = false) : pytrialParameters cfg ss t = .error .value :=
   (c17_unknown_is_error cfg ss t H hk).1 h
 
+/-! ## twin spaces: one name defined under several parent values (repaired variant only) -/
+
+/-- MAIN (active only, twin spaces).  For the variant that carries the parent's stored value
+(`Cfg.fixed`, what /repo does now) tree-wide uniqueness of names is NOT needed: it is enough
+that the parameters ACTIVE under the trial's own values have distinct names (`ActiveDistinct`;
+the same name may be defined under several parent values).  Same conclusion as
+`c17_active_only`. -/
+theorem c17_active_only_twins (ss : List PC) (t : Assign) (hA : ActiveDistinct ss t)
+    (hb : ∀ n v, lookup t n = some v → isBool v = false)
+    (hinf : ∀ n v, lookup t n = some v → v ≠ .flt .pinf ∧ v ≠ .flt .ninf) :
+    ∃ ext, trialToExternalValues Cfg.fixed ss t = .ok ext ∧
+      ext.Perm ((activePresent ss t).map fun pv => (pv.1.name, castV pv.1.h.ext pv.2)) := by
+  have hc : ∀ p ∈ allSpace ss, ∀ v, lookup t p.name = some v → ∃ x, Space.cast p.h.ext v = .ok x :=
+    fun p _ v hv => cast_total_of_finite _ v (hinf _ v hv)
+  obtain ⟨st, hst, hp⟩ := extLoopById_presents_active ss t hA hb hc
+  refine ⟨st.ext, ?_, hp⟩
+  unfold trialToExternalValues
+  simp [Cfg.fixed, hst]
+
+/-- MAIN (inactive is an error, twin spaces).  `Cfg.fixed`, a trial that is a dict (unique
+keys), active names distinct: `_pytrial_parameters` raises ValueError when the trial carries a
+parameter that is not an active parameter of the space (unknown name, or a parameter that only
+exists in an inactive branch — also when an active twin of the same name exists elsewhere);
+otherwise it returns the grouped presentation of all of them.  Mirrors `c17_unknown_is_error`
+with `ActiveDistinct` in place of tree-wide uniqueness. -/
+theorem c17_inactive_is_error (ss : List PC) (t : Assign) (hA : ActiveDistinct ss t)
+    (hb : ∀ n v, lookup t n = some v → isBool v = false)
+    (hinf : ∀ n v, lookup t n = some v → v ≠ .flt .pinf ∧ v ≠ .flt .ninf)
+    (hk : (keys t).Nodup) :
+    (trialKnown ss t = false → pytrialParameters Cfg.fixed ss t = .error .value) ∧
+    (trialKnown ss t = true → ∃ ext, trialToExternalValues Cfg.fixed ss t = .ok ext ∧
+      ext.length = t.length ∧ pytrialParameters Cfg.fixed ss t = .ok (group ext)) := by
+  obtain ⟨ext, hext, hperm⟩ := c17_active_only_twins ss t hA hb hinf
+  let A := (activePresent ss t).map fun pv => pv.1.name
+  have hlen : ext.length = A.length := by
+    rw [hperm.length_eq]; simp [A]
+  have hAsub : A ⊆ keys t := by
+    intro n hn
+    simp only [A, List.mem_map] at hn
+    obtain ⟨pv, hpv, rfl⟩ := hn
+    unfold activePresent at hpv
+    rw [List.mem_filterMap] at hpv
+    obtain ⟨p, _, hp⟩ := hpv
+    cases hl : lookup t p.name with
+    | none => rw [hl] at hp; cases hp
+    | some v => rw [hl] at hp; cases hp; exact lookup_some_mem hl
+  have hAnd : A.Nodup := hA.carried
+  have hknown : trialKnown ss t = true ↔ keys t ⊆ A := by
+    unfold trialKnown
+    simp only [List.all_eq_true, List.contains_iff_mem]
+    exact Iff.rfl
+  have hklen : (keys t).length = t.length := by simp [keys]
+  constructor
+  · intro hf
+    unfold pytrialParameters
+    rw [hext]
+    simp only
+    have hne : ext.length ≠ t.length := by
+      intro heq
+      have : keys t ⊆ A := subset_of_nodup_length hAnd hAsub (by rw [hklen, ← heq, hlen])
+      rw [hknown.mpr this] at hf; cases hf
+    simp [hne]
+  · intro ht
+    have hsub := hknown.mp ht
+    have heq : ext.length = t.length := by
+      rw [hlen, ← hklen]
+      exact length_eq_of_nodup_subsets hAnd hk hAsub hsub
+    refine ⟨ext, hext, heq, ?_⟩
+    unfold pytrialParameters
+    rw [hext]
+    simp [heq]
+
+/-- … as an equivalence: under the same hypotheses ValueError is raised EXACTLY when the trial
+carries an unknown or inactive parameter -/
+theorem c17_inactive_is_error_iff (ss : List PC) (t : Assign) (hA : ActiveDistinct ss t)
+    (hb : ∀ n v, lookup t n = some v → isBool v = false)
+    (hinf : ∀ n v, lookup t n = some v → v ≠ .flt .pinf ∧ v ≠ .flt .ninf)
+    (hk : (keys t).Nodup) :
+    pytrialParameters Cfg.fixed ss t = .error .value ↔ trialKnown ss t = false := by
+  have H := c17_inactive_is_error ss t hA hb hinf hk
+  constructor
+  · intro herr
+    cases hkn : trialKnown ss t with
+    | false => rfl
+    | true =>
+      obtain ⟨ext, _, _, hok⟩ := H.2 hkn
+      rw [hok] at herr
+      cases herr
+  · exact H.1
+
 /-! ## indexed parameters -/
 
 /-- `name[0], name[1], …` are presented as one list under `name` in index order (stable),
@@ -304,6 +395,42 @@ example : (names (allSpace exUniqueSpace)).Nodup ∧ storedOK exTrial = true ∧
       .ok [("model", .one (some (.str "a"))), ("lr", .one (some (.int 1))), ("mom", .one (some (.flt (.fin (1/2)))))] ∧
     ((activePresent exUniqueSpace exTrial).all fun pv => extOK pv.1.h && typeOK pv.1.h pv.2 && inDomain pv.1.h pv.2) = true := by
   decide +kernel
+
+/-- non-vacuity of the twin theorems: `twinSpace` defines `lr` under model = a and under
+model = b, so names are NOT unique over the tree, yet both trials satisfy `ActiveDistinct`;
+the trial of the active branch is known and presented, the trial that carries `mom` of the
+inactive branch (`twinTrial`, model = b) is not known -/
+example : ¬ (names (allSpace twinSpace)).Nodup ∧ siblingUnique twinSpace = true ∧
+    ActiveDistinct twinSpace exTrial ∧ storedOK exTrial = true ∧ trialKnown twinSpace exTrial = true ∧
+    pytrialParameters Cfg.fixed twinSpace exTrial =
+      .ok [("model", .one (some (.str "a"))), ("lr", .one (some (.int 1))), ("mom", .one (some (.flt (.fin (1/2)))))] ∧
+    ActiveDistinct twinSpace twinTrial ∧ storedOK twinTrial = true ∧ (keys twinTrial).Nodup ∧
+    trialKnown twinSpace twinTrial = false := by
+  decide +kernel
+
+theorem c17_storedOK_spec {t : Assign} (h : storedOK t = true) :
+    (∀ n v, lookup t n = some v → isBool v = false) ∧
+    (∀ n v, lookup t n = some v → v ≠ .flt .pinf ∧ v ≠ .flt .ninf) := by
+  have key : ∀ n v, lookup t n = some v → isBool v = false ∧ v ≠ .flt .pinf ∧ v ≠ .flt .ninf := by
+    intro n v hl
+    unfold lookup at hl
+    rw [Option.map_eq_some_iff] at hl
+    obtain ⟨e, he, rfl⟩ := hl
+    have hm := List.mem_of_find?_eq_some he
+    unfold storedOK at h
+    rw [List.all_eq_true] at h
+    have := h e hm
+    simp only [Bool.and_eq_true, Bool.not_eq_true', decide_eq_true_eq] at this
+    exact ⟨this.1.1, this.1.2, this.2⟩
+  exact ⟨fun n v hl => (key n v hl).1, fun n v hl => ⟨(key n v hl).2.1, (key n v hl).2.2⟩⟩
+
+/-- the new theorem, instantiated: the trial with model = b that carries `mom` (defined only
+under model = a, lr = 1) is reported as an error — derived from `c17_inactive_is_error`, not by
+evaluation -/
+example : pytrialParameters Cfg.fixed twinSpace twinTrial = .error .value :=
+  (c17_inactive_is_error twinSpace twinTrial (by decide +kernel)
+    (c17_storedOK_spec (t := twinTrial) (by decide +kernel)).1
+    (c17_storedOK_spec (t := twinTrial) (by decide +kernel)).2 (by decide)).1 (by decide +kernel)
 
 example : parseIndexed "m[10]" = some ("m", 10) ∧ parseIndexed "q[0][1]" = some ("q[0]", 1) ∧
     parseIndexed "w(a)[0]" = none ∧ parseIndexed "m[]" = none ∧ parseIndexed "m" = none ∧
